@@ -3,9 +3,21 @@
 import json, subprocess
 
 BUILT = {
+ "C01": ("Deviation-bounded exhaustive exploration of a reference grammar written from IEC 61131-3 Annex B (15 production groups: expression operands and calls, statements, one- and two-level nesting in every statement-list slot, all TYPE forms, VAR blocks of every class x qualifier x 26 initialiser kinds x host POU, several blocks per POU, located / incomplete / access variables, POUs, library shapes, CONFIGURATION / RESOURCE / TASK / program configuration / VAR_CONFIG, SFC): every derivation with at most 1 (thorough: 2) costly deviations from the simplest member of its group, cost-0 choices fully expanded, plus complete tables (all 16x16 operator pairs, same-level and mixed-level triples, every bracketing of 3 and 4 operands, unary placements). Each program is parsed by the real parser; the projection of the returned library is compared node by node with the tree the generator emitted.",
+         "Trusts: the reference grammar and precedence table (typed in from Annex B, never derived from the parser), the projection π (erases DSL representation choices only). Derivations with more simultaneous deviations than the bound are not explored.",
+         "deviation-bounded exhaustive enumeration of grammar derivations (iterative bounding with 'departure from the default alternative' as the deviation) against an independently generated expected tree"),
+ "C05": ("(a) token tiling on every C01 program, END_IF-without-semicolon variants, every base document x 19 trivia members at every gap at once and at each single gap, invalid characters (5 kinds x 3 positions), OSCAT headers with 1-4 byte characters: text == source slice, contiguous ordered spans on character boundaries, line and column of the span start; (b) on every C01 program that parses: every written identifier occurrence is carried by an Id with exactly that span and file id, no user-spelled Id carries a foreign span; (c) every single-token deletion, duplication and neighbour swap of every base document and every 7th (thorough: every) C01 program: all labels of all diagnostics inside the text on character boundaries; labels of planted semantic faults (C02 worlds) inside the faulty declaration on lexeme boundaries.",
+         "Trusts: the harness position tables (computed while spelling). Column unit: bytes, chars or UTF-16 accepted if one unit fits every token of a document; white space inside a blanked OSCAT description is exempt from the column comparison.",
+         "exhaustive enumeration of source texts (grammar derivations x trivia placements x single-token edits) against independently computed position tables"),
  "C07": ("All digraphs on <=4 nodes (self-loops included; 69,905 graphs) in three realisations (function-block instance graph, all-structure type graph, alias-for-out-degree-1 type graph), both declaration orders for n<=3 (thorough: also n=4), structured families up to 12 nodes, thorough: all digraphs on 5 nodes with <=7 edges; every program is analysed by the real analyzer and compared with an independent cycle detector.",
          "Trusts: harness cycle detector (sink elimination), program realisation of a graph; codes P0010/P0013 = 'reported as recursive'. Graphs on more than 4 nodes only through the listed families.",
          "exhaustive enumeration of all digraphs up to 4 nodes x realisations against a reference cycle detector (bounded exhaustive exploration of inputs on the real code)"),
+ "C08": ("Every C01 program (deviation bound 1, 7.5k programs) x respellings, each an operation on the lexeme list: each keyword occurrence x {lower, Capitalised, aLtErNaTiNg}, all keywords at once x 3, each identifier occurrence x case variants, all identifier occurrences in rotating different cases, each non-glued gap x trivia menu of 19 (quick: a rotating third per gap; thorough: all), nothing at the gap where the lexical rules allow it, every gap at once x each member, END_IF with and without ';' — 2.1 M respelled programs in the quick tier. Oracle: parse(respelled) equals parse(canonical) under the repository's PartialEq and under the case-folded projection, and analyze() yields the same codes.",
+         "Trusts: the glue marks of the generator (where trivia may be inserted) and the 'may abut' whitelist. Programs whose canonical form does not parse are left to C01.",
+         "exhaustive enumeration of single and simultaneous respellings of every grammar derivation, differential oracle against the canonical spelling"),
+ "C10": ("Every C01 program the parser accepts (quick deviation bound 1, thorough 2, plus operator tables): L1 = parse(s); r = render(L1); L2 = parse(r); projection(L2) == projection(L1); render(L2) == r. Failures are attributed to the minimal failing derivation of their family. A systematic subset (every 150th, thorough every 40th) goes through `ironplcc echo` twice on the real binary and must reproduce the in-process text.",
+         "Trusts: the projection π as the equality that matters (the repository's PartialEq additionally distinguishes an empty body from an empty statement list).",
+         "deviation-bounded exhaustive enumeration of grammar derivations through parse-render-parse-render with a fixed-point oracle"),
  "C11": ("Explicit-state BFS to a fixpoint over the real LSP server (in-process, memory connection): state = Debug rendering of every Source the server holds (complete server state), transition = one didOpen/didChange over 2 URIs x 5 texts (valid, lexical error, syntax error, semantic error, depends-on-other-document) sent to a fresh server that replayed the state's shortest history; plus every history up to length 3 (thorough 4) without de-duplication; both file iteration orders through the H2 seam. Oracles on every transition: exactly one publishDiagnostics for the uri with the event's version; diagnostics equal a freshly started server's for the same contents; server-held text equals the reference model's content; published ranges equal an independent conversion of the label offsets; `ironplcc check dir` on the same contents reports the same codes and positions. Spanning-tree histories are replayed over stdio against the real binary.",
          "Trusts: the probe barrier (a semanticTokens request) and the sequential server loop; Debug of Source as complete state; fixed 5-text alphabet. Hash-order nondeterminism is owned through the file-order seam (both orders), the binary must agree with one of them.",
          "explicit-state model checking of the real server (BFS with state de-duplication to a fixpoint + exhaustive bounded histories) with a reference document-store model and trace conformance against the binary"),
